@@ -51,6 +51,13 @@ type ServerHSCase struct {
 	// ViaFunc: the deprecated package-level Upgrade function (an Upgrader that
 	// admits every origin and leaves the error reply to the application).
 	ViaFunc bool `json:"via_func,omitempty"`
+	// Wrapped: the ResponseWriter is a middleware wrapper that reaches the
+	// hijackable writer only through Unwrap().
+	Wrapped bool `json:"wrapped,omitempty"`
+	// WarmUp: the same Upgrader value has served another handshake before,
+	// with other Subprotocols / compression settings, which the application
+	// then changed to the ones of this case.
+	WarmUp bool `json:"warm_up,omitempty"`
 }
 
 func (r HSReq) raw() string {
@@ -310,6 +317,8 @@ func genServerHSCase(t *rapid.T) ServerHSCase {
 			c.Resp = append(c.Resp, RespKV{Name: name, Val: val})
 		}
 	}
+	c.Wrapped = rapid.IntRange(0, 3).Draw(t, "wrapped") == 0
+	c.WarmUp = rapid.IntRange(0, 2).Draw(t, "warm_up") == 0
 	if rapid.IntRange(0, 7).Draw(t, "via_func") == 0 {
 		// the deprecated function has no Subprotocols / compression / pool / origin policy
 		c.ViaFunc, c.CheckOrigin, c.SubsNil, c.Subs, c.Compression, c.Pool = true, "allow", true, nil, false, false
@@ -452,11 +461,30 @@ func checkC12(c ServerHSCase, o *Obs) error {
 	viaFunc := c.ViaFunc && c.CheckOrigin == "allow" && c.SubsNil && !c.Compression && !c.Pool
 	var conn *websocket.Conn
 	var uerr error
+	var rw http.ResponseWriter = w
+	if c.Wrapped {
+		rw = &wrappedRW{inner: w}
+		o.Class("response_writer_wrapped")
+	}
+	if c.WarmUp && !viaFunc {
+		// an earlier handshake on this very Upgrader with different settings
+		subs, comp := u.Subprotocols, u.EnableCompression
+		u.Subprotocols, u.EnableCompression = []string{"warm", "chat", "superchat", "v2"}, !comp
+		wtr := xport.NewScriptConn(nil, nil)
+		wtr.NoLog = true
+		wreq := upgradeRequest(true)
+		wreq.Header["Sec-Websocket-Protocol"] = []string{"warm, chat"}
+		if wc, werr := u.Upgrade(&fakeRW{conn: wtr, brw: bufio.NewReadWriter(bufio.NewReaderSize(wtr, 4096), bufio.NewWriterSize(wtr, 4096))}, wreq, nil); werr == nil {
+			wc.Close()
+		}
+		u.Subprotocols, u.EnableCompression = subs, comp
+		o.Class("upgrader_reused_with_changed_settings")
+	}
 	if viaFunc {
-		conn, uerr = websocket.Upgrade(w, req, rh, c.ReadBuf, c.WriteBuf)
+		conn, uerr = websocket.Upgrade(rw, req, rh, c.ReadBuf, c.WriteBuf)
 		o.Class("via_package_level_Upgrade")
 	} else {
-		conn, uerr = u.Upgrade(w, req, rh)
+		conn, uerr = u.Upgrade(rw, req, rh)
 	}
 	if (conn == nil) == (uerr == nil) {
 		return fmt.Errorf("Upgrade returned conn=%v err=%v", conn != nil, uerr)
